@@ -837,9 +837,9 @@ impl Drop for Huge {
 /// one byte more than AES-GCM's limit on the associated data (2^36 bytes)
 pub const AAD_OVER_GCM_LIMIT: usize = (1usize << 36) + 1;
 
-/// 14-letter alphabet of the history tree
-pub const LETTERS: [&str; 14] = [
-    "SealA", "SealI", "NextA", "NextI", "ReplayA", "FutureI", "TamperA", "ShortA", "WrongAadI", "GarbageI", "ExportS", "ExportR", "SealOverLimit", "OpenOverLimit",
+/// 16-letter alphabet of the history tree
+pub const LETTERS: [&str; 16] = [
+    "SealA", "SealI", "NextA", "NextI", "ReplayA", "FutureI", "TamperA", "ShortA", "WrongAadI", "GarbageI", "ExportS", "ExportR", "SealOverLimit", "OpenOverLimit", "SealBigA", "NextLongTagI",
 ];
 
 #[derive(Clone, Debug, Serialize, Deserialize)]
@@ -910,6 +910,39 @@ impl E2b {
                 }
                 10 => run_export(out, fx, s.export(b"tree", 33), b"tree", 33, &what),
                 11 => run_export(out, fx, r.export(b"tree", 33), b"tree", 33, &what),
+                14 => {
+                    // a LARGE message through the allocating seal (a separate bulk path is a classic): it uses up exactly one
+                    // sequence number like any other message
+                    out.transitions += 1;
+                    let big = vec![0x42u8; 4101];
+                    let got = s.seal(&big, b"big");
+                    match pos.s {
+                        Some(p) => {
+                            if got != Obs::Ok(fx.refctx.seal_at(p as u128, b"big", &big)) {
+                                out.fail(format!("{}: allocating seal of 4101 bytes at sequence number {} differs from R1: {}", what, p, got.class()));
+                            }
+                        }
+                        None => {
+                            if got != Obs::Err(HpkeError::MessageLimitReached) {
+                                out.fail(format!("{}: exhausted sender, 4101-byte message: {} want Err(MessageLimitReached)", what, got.class()));
+                            }
+                        }
+                    }
+                    pos.s = pos.s.and_then(succ);
+                }
+                15 => {
+                    // the genuine next message through the in-place form, but with a byte appended to the TAG field: the tag
+                    // does not deserialize (IncorrectInputLength), nothing is opened and nothing moves
+                    let (_, aad, ct) = fx.msg(cur_r);
+                    let nt = fx.nt();
+                    let mut buf = ct[..ct.len() - nt].to_vec();
+                    let long_tag = [&ct[ct.len() - nt..], &[0u8][..]].concat();
+                    out.transitions += 1;
+                    let got = r.open_ip(&mut buf, &aad, &long_tag);
+                    if got != Obs::Pre(HpkeError::IncorrectInputLength(nt, nt + 1)) {
+                        out.fail(format!("{}: in-place delivery whose tag field is {} bytes long: {} want IncorrectInputLength({}, {}) from AeadTag::from_bytes", what, nt + 1, got.class(), nt, nt + 1));
+                    }
+                }
                 _ => {
                     // an input the AEAD itself refuses (AES-GCM: more than 2^36 bytes of aad): the seal fails with
                     // SealError / the open with OpenError, and NOTHING else changes - the next successful seal is
@@ -961,7 +994,7 @@ impl Part for E2b {
         format!("E2b-history-tree-{}", self.label)
     }
     fn rule(&self) -> String {
-        "unmerged tree of ALL action sequences up to the depth bound over the letter alphabet {seal (2 APIs), deliver next (2 APIs), replay, future, tampered, short, wrong-aad, garbage, export S, export R, seal / open with more associated data than the AEAD accepts (2^36+1 bytes from an uncommitted read-only mapping, AES-GCM suites; must fail with SealError / OpenError and change nothing)}, run on live sender+receiver contexts from each start position (the hook only sets the start); the abstract model runs in lock-step: every result, every output byte and the concrete (seq, overflowed) pair after every step are compared; a case = one prefix with all its continuations".into()
+        "unmerged tree of ALL action sequences up to the depth bound over the letter alphabet {seal (2 APIs), deliver next (2 APIs), replay, future, tampered, short, wrong-aad, garbage, export S, export R, a 4101-byte allocating seal, the next message with an over-long tag field through the in-place form, seal / open with more associated data than the AEAD accepts (2^36+1 bytes from an uncommitted read-only mapping, AES-GCM suites; must fail with SealError / OpenError and change nothing)}, run on live sender+receiver contexts from each start position (the hook only sets the start); the abstract model runs in lock-step: every result, every output byte and the concrete (seq, overflowed) pair after every step are compared; a case = one prefix with all its continuations".into()
     }
     fn bound(&self, _cfg: &Cfg) -> String {
         format!("depth {} over {} letters from {} start positions x {} suites", self.depth, self.letters.len(), self.starts.len(), self.suites.len())
